@@ -61,6 +61,10 @@ func c08Check(x *cpuCtx, c *cpuCase) (sig, what string, nontrivial bool) {
 			return fmt.Sprintf("unexplained:address-out-of-range:%s:%s:%s", name, e.Mn, modeName[e.Mode]),
 				fmt.Sprintf("%s %s %s: bus access at $%x >= 2^24 | case %s", name, e.Mn, modeName[e.Mode], bad, c.String()), nontrivial
 		}
+		if m.Misrouted {
+			return fmt.Sprintf("unexplained:access-handed-to-wrong-memory:%s:%s:%s", name, e.Mn, modeName[e.Mode]),
+				fmt.Sprintf("%s %s %s: the access to $%06x was handed to the memory object attached over another 16-byte cell (the space is mapped by two interleaved objects; with separate backing arrays this is an out-of-range access) | case %s", name, e.Mn, modeName[e.Mode], m.MisAddr, c.String()), nontrivial
+		}
 	}
 	return "", "", nontrivial
 }
@@ -74,6 +78,9 @@ func c08ProgOracle(e *progEnv, res *progStepResult) (sig, what string, descend b
 		}
 		if e.x.ms[i].Mem().Bad {
 			return "unexplained:program:address-out-of-range:" + name + ":" + mn, fmt.Sprintf("%s: bus access >= 2^24 after %v from seed state %d", name, e.pathNames(), e.seed), false
+		}
+		if mm := e.x.ms[i].Mem(); mm.Misrouted {
+			return "unexplained:program:access-handed-to-wrong-memory:" + name + ":" + mn, fmt.Sprintf("%s: the access to $%06x was handed to the memory object of another 16-byte cell after %v from seed state %d", name, mm.MisAddr, e.pathNames(), e.seed), false
 		}
 	}
 	return "", "", true
